@@ -36,6 +36,8 @@ pub fn any_op4() -> char {
     match k { 0 => '+', 1 => '-', 2 => '*', _ => '/' }
 }
 
+pub fn item_number(ast: &SmartCalcAstType) -> Option<f64> { item_value(ast) }
+
 fn item_value(ast: &SmartCalcAstType) -> Option<f64> {
     match ast {
         SmartCalcAstType::Item(i) => Some(i.get_underlying_number()),
